@@ -733,6 +733,9 @@ struct Keys {
 	vks: Vec<ViewKey>,
 	/// depth-1 view keys for the normal first indices 0, 1, 2^31-1 of every seed
 	child_vks: Vec<Vec<(u32, ViewKey)>>,
+	/// the same depth-1 view keys obtained the other way: ViewKey::create on the privately derived
+	/// extended key m/i
+	child_vks_priv: Vec<Vec<(u32, ViewKey)>>,
 }
 
 impl Keys {
@@ -750,7 +753,20 @@ impl Keys {
 					.collect()
 			})
 			.collect();
-		Keys { kcs, vks, child_vks }
+		let child_vks_priv = kcs
+			.iter()
+			.map(|kc| {
+				let mut h = kc.hasher();
+				IDX.iter()
+					.filter(|i| !hardened(**i))
+					.map(|i| {
+						let ext = kc.master.ckd_priv(kc.secp(), &mut h, ChildNumber::from(*i)).expect("ckd_priv");
+						(*i, ViewKey::create(kc, ext, &mut h, false).expect("view key of a derived key"))
+					})
+					.collect()
+			})
+			.collect();
+		Keys { kcs, vks, child_vks, child_vks_priv }
 	}
 }
 
@@ -929,6 +945,24 @@ fn proof_case(keys: &Keys, b: &Builders, p: &Path, c: usize, extras: bool, o: &m
 				match &rw {
 					Ok(None) => o.out("child-viewkey-none"),
 					_ => o.fail("viewkey:child-foreign", format!("{}: child view key m/{} (not an ancestor, or hardened below) gives {}", what, ci, show(&rw))),
+				}
+			}
+		}
+		// the same child view keys built from the privately derived extended key: same answers
+		for (ci, cvk) in &keys.child_vks_priv[seed_i] {
+			o.evals += 1;
+			let rw = rewind_with(secp, cvk, commit, pr);
+			let below = p.0 >= 1 && p.1[0] == *ci;
+			if below && !hard {
+				if exact(&rw) {
+					o.out("child-viewkey(private route)-exact");
+				} else {
+					o.fail(&vk_key("child-private-route-mismatch"), format!("{}: rewind with the view key created from the derived private key m/{} gives {}", what, ci, show(&rw)));
+				}
+			} else {
+				match &rw {
+					Ok(None) => o.out("child-viewkey(private route)-none"),
+					_ => o.fail("viewkey:child-private-route-foreign", format!("{}: view key created from m/{} (not an ancestor, or hardened below) gives {}", what, ci, show(&rw))),
 				}
 			}
 		}
